@@ -591,6 +591,18 @@ def check_path(prop, prog, meta, rec, timeout):
     goals = [(n, c) for n, c in rec["ensures"]]
     roots = [c for _, c in goals] + [c for _, c in rec["outputs"]]
     for c, _ in rec["pc"]: roots.append(c)
+    # fast path: every ensure folded to `true` during extraction (both sides are the SAME term), every identity is
+    # syntactic and no output is declared -> nothing is left for a solver (the path's feasibility does not matter)
+    if goals and not rec["outputs"] and all(ctx.nodes[c][0] == "true" for _, c in goals) and all(a == b for _, a, b in rec["identical"]):
+        for n, c in goals:
+            o = Ob("%s.ensure.%s" % (base, n), "term-identity", "complete", meta["func"], meta["desc"] + " [ensure." + n + "]")
+            o.backend = "hash-consed term identity"; o.status = DISCHARGED
+            obs.append(o)
+        for n, a, b in rec["identical"]:
+            o = Ob("%s.identical.%s" % (base, n), "term-identity", "complete", meta["func"], meta["desc"] + " [identical." + n + "]")
+            o.backend = "hash-consed term identity"; o.status = DISCHARGED
+            obs.append(o)
+        return obs, {"feasible": None, "path": base}
     # translate everything first (collects the uninterpreted applications)
     for r in roots: ctx.t(r)
     for c in rec["assumes"]: ctx.t(c)
@@ -738,7 +750,7 @@ def run_property(prop, tier, timeout=20, jobs=14, select=None):
         return [o], ["cargo build (failed)"], {"build": "failed"}
     rc, out, dt = run([SBIN, "--list"])
     metas = [json.loads(l) for l in out.splitlines() if l.startswith("{")]
-    metas = [m for m in metas if m["prop"] == prop and (tier == "thorough" or m["tier"] == "quick")]
+    metas = [m for m in metas if prop in m["prop"].split(",") and (tier == "thorough" or m["tier"] == "quick")]
     if select: metas = [m for m in metas if select(m)]
     obs = []
     tasks = []
